@@ -326,30 +326,58 @@ def rule_o3(repo, col):
 def rule_o4(repo, col):
     f = repo.func(MOD, "_builtin_compare")
     m = f.module
-    tup = None
-    tupname = None
-    cpname = None
+    import copy
+    menv = m.module_constants()
+    local = {}
     for st in walk_no_nested(f.node):
         if isinstance(st, ast.Assign) and len(st.targets) == 1 and isinstance(st.targets[0], ast.Name):
-            if isinstance(st.value, ast.Tuple) and all(isinstance(e, ast.Constant) and isinstance(e.value, str) for e in st.value.elts):
-                tup = [e.value for e in st.value.elts]
-                tupname = st.targets[0].id
-                tupnode = st
-            if isinstance(st.value, ast.Call) and dotted(st.value.func) == "struct_cmp":
-                cpname = st.targets[0].id
-    if tup is None or cpname is None:
-        raise AnalysisError("_builtin_compare: token tuple / struct_cmp result not found")
-    idx = None
-    for st in walk_no_nested(f.node):
-        if isinstance(st, ast.Subscript) and isinstance(st.value, ast.Name) and st.value.id == tupname:
-            idx = st
-    if idx is None:
-        raise AnalysisError("_builtin_compare: token tuple is never indexed")
+            local.setdefault(st.targets[0].id, []).append(st)
+    cpnames = set(k_ for k_, v_ in local.items() if len(v_) == 1 and isinstance(v_[0].value, ast.Call) and dotted(v_[0].value.func) == "struct_cmp")
+
+    def str_tuple(e):
+        """the tuple of string tokens an expression denotes: literal, single-assignment local or module constant"""
+        if isinstance(e, ast.Name) and len(local.get(e.id, ())) == 1:
+            return str_tuple(local[e.id][0].value) and (str_tuple(local[e.id][0].value)[0], local[e.id][0])
+        if isinstance(e, ast.Name) and e.id in menv and e.id not in local:
+            v_ = menv[e.id]
+        else:
+            ok_, v_ = const_value(e)
+            if not ok_:
+                return None
+        if isinstance(v_, tuple) and v_ and all(isinstance(x, str) for x in v_):
+            return list(v_), e
+        return None
+
+    class _CP(ast.NodeTransformer):
+        def visit_Call(self, node):
+            if dotted(node.func) == "struct_cmp":
+                return ast.copy_location(ast.Name(id="__cp__", ctx=ast.Load()), node)
+            return self.generic_visit(node)
+
+        def visit_Name(self, node):
+            if node.id in cpnames:
+                return ast.copy_location(ast.Name(id="__cp__", ctx=ast.Load()), node)
+            return node
+
+    cands = []
+    for n in walk_no_nested(f.node):
+        if isinstance(n, ast.Subscript):
+            tv = str_tuple(n.value)
+            if tv:
+                sl = _CP().visit(copy.deepcopy(n.slice))
+                if any(isinstance(x, ast.Name) and x.id == "__cp__" for x in ast.walk(sl)):
+                    cands.append((tv[0], tv[1], n, sl))
+    if len(cands) != 1:
+        raise AnalysisError("_builtin_compare: token tuple indexed by the struct_cmp result not found (%d candidates)" % len(cands))
+    tup, tupnode, idx, slice_cp = cands[0]
+    if not isinstance(tupnode, ast.stmt):
+        tupnode = idx
+    cpname = "__cp__"
     want = {-1: "'<'", 0: "'='", 1: "'>'"}
     allok = True
     got = {}
     for cp in (-1, 0, 1):
-        okv, v = const_value(idx.slice, {cpname: cp})
+        okv, v = const_value(slice_cp, {cpname: cp})
         if not okv or not isinstance(v, int) or not (-len(tup) <= v < len(tup)):
             raise AnalysisError("_builtin_compare: index expression %s not foldable for cp=%d" % (norm(idx.slice), cp))
         got[cp] = tup[v]
@@ -408,55 +436,65 @@ def rule_o5(repo, col):
         col.ok("O5", m, call.args[0], "duplicates removed before sorting")
 
 
-def _type_tiers(f):
-    """Top-level `if _is_T(a): if _is_T(b): ... else: return -1 / elif _is_T(b): return 1` tiers in order."""
+_KINDS = [("var", "_is_var"), ("number", "_is_number"), ("string", "_is_string"), ("other", None)]
+
+
+def _tier_scenarios(f, col, m):
+    """Decision table of struct_cmp over the type kinds of its two arguments (finite domain var < number < string < other; the kind predicates are
+    mutually exclusive by construction of the term classes).  For two arguments of different kinds every path consistent with the kinds must return a
+    constant whose sign is the order of the kinds."""
+    from .. import dtable
     a, b = f.params[0], f.params[1]
-    tiers = []
-    for st in f.node.body:
-        if not isinstance(st, ast.If):
-            continue
-        t = st.test
-        if not (isinstance(t, ast.Call) and isinstance(t.func, ast.Name) and len(t.args) == 1 and norm(t.args[0]) == a):
-            continue
-        pred = t.func.id
-        inner = None
-        only_a = None
-        for s in st.body:
-            if isinstance(s, ast.If) and isinstance(s.test, ast.Call) and dotted(s.test.func) == pred and norm(s.test.args[0]) == b:
-                inner = s
-                if len(s.orelse) == 1 and isinstance(s.orelse[0], ast.Return):
-                    only_a = s.orelse[0]
-        only_b = None
-        if len(st.orelse) == 1 and isinstance(st.orelse[0], ast.If):
-            e = st.orelse[0]
-            if isinstance(e.test, ast.Call) and dotted(e.test.func) == pred and norm(e.test.args[0]) == b and len(e.body) == 1 and isinstance(e.body[0], ast.Return):
-                only_b = e.body[0]
-        tiers.append((pred, st, inner, only_a, only_b))
-    return tiers
+    paths = dtable.extract(f.node, opaque_loops=True)
+    preds_seen = set()
+    for p in paths:
+        for s_, _, _ in p.conds:
+            for _, pr in _KINDS:
+                if pr and s_ in ("%s(%s)" % (pr, a), "%s(%s)" % (pr, b)):
+                    preds_seen.add(pr)
+    if not {"_is_var", "_is_number"} <= preds_seen:
+        raise AnalysisError("struct_cmp: type tiers not recognised (%s)" % sorted(preds_seen))
+    n = 0
+    for ia, (ka, _) in enumerate(_KINDS):
+        for ib, (kb, _) in enumerate(_KINDS):
+            if ia == ib:
+                continue
+            truth = {}
+            for k, pr in _KINDS:
+                if pr:
+                    truth["%s(%s)" % (pr, a)] = (k == ka)
+                    truth["%s(%s)" % (pr, b)] = (k == kb)
+            want = -1 if ia < ib else 1
+            compat = [p for p in paths if all(truth.get(s_, t) == t for s_, t, _ in p.conds)]
+            decided = [p for p in compat if all(s_ in truth for s_, _, _ in p.conds)]
+            bad = []
+            for p in compat:
+                okc = False
+                if p.end == "return" and p.value is not None:
+                    try:
+                        ok_, v = const_value(ast.parse(p.value, mode="eval").body)
+                    except SyntaxError:
+                        ok_, v = False, None
+                    okc = ok_ and isinstance(v, (int, float)) and ((v < 0) == (want < 0)) and v != 0
+                if not okc:
+                    bad.append(p)
+            if bad and not all(p in decided for p in bad):
+                raise AnalysisError("struct_cmp: a path for (%s, %s) depends on conditions outside the type-kind domain: %s" % (ka, kb, [c[0] for c in bad[0].conds]))
+            if not compat:
+                raise AnalysisError("struct_cmp: no path for kinds (%s, %s)" % (ka, kb))
+            n += 1
+            col.decide("O6", m, (bad[0].conds[-1][2] if bad and bad[0].conds else f.node), not bad,
+                       "struct_cmp(%s, %s) is %s" % (ka, kb, "negative" if want < 0 else "positive"),
+                       "standard order requires variables < numbers < strings < other terms: for a %s and a %s struct_cmp must return a %s constant, but a path returns %s"
+                       % (ka, kb, "negative" if want < 0 else "positive", bad[0].value if bad else ""),
+                       construct="struct_cmp tiers: (%s, %s)" % (ka, kb), function="struct_cmp")
+    return paths
 
 
 def rule_o6(repo, col):
     f = repo.func(MOD, "struct_cmp")
     m = f.module
-    tiers = _type_tiers(f)
-    preds = [t[0] for t in tiers]
-    if len(tiers) < 2:
-        raise AnalysisError("struct_cmp: type tiers not recognised (%s)" % preds)
-    for pred, st, inner, only_a, only_b in tiers:
-        if inner is None or only_a is None or only_b is None:
-            raise AnalysisError("struct_cmp: tier %s has an unexpected shape" % pred)
-        oka, va = const_value(only_a.value)
-        okb, vb = const_value(only_b.value)
-        col.decide("O6", m, only_a, oka and va < 0, "%s(a) only: a sorts first" % pred,
-                   "tier %s: when only the first argument is of this type it must sort first (negative), returns %s" % (pred, norm(only_a.value)))
-        col.decide("O6", m, only_b, okb and vb > 0, "%s(b) only: b sorts first" % pred,
-                   "tier %s: when only the second argument is of this type the result must be positive, returns %s" % (pred, norm(only_b.value)),
-                   construct="elif %s(b): %s" % (pred, norm(only_b)))
-    # order: var tier first, number tier second
-    want = ["_is_var", "_is_number"]
-    col.decide("O6", m, f.node, preds[:2] == want, "type tiers start with variables, then numbers",
-               "standard order requires variables < numbers < everything else; tiers found in order %s" % preds,
-               construct="def struct_cmp: tiers %s" % preds[:2], function="struct_cmp")
+    paths = _tier_scenarios(f, col, m)
     # float before equal integer inside the number tier
     g = cfgmod.build(f.node)
     facts = cfgmod.available_facts(g)
@@ -476,14 +514,19 @@ def rule_o6(repo, col):
         col.fail("O6", m, f.node, "the number tier no longer orders a float before an equal integer (both directions)",
                  construct="def struct_cmp: float/integer tie-break", function="struct_cmp")
     # the number tier compares the two VALUES as floats (mixed int/float pairs must not be truncated)
-    numtier = [t for t in tiers if t[0] == "_is_number"]
-    if numtier:
-        inner = numtier[0][2]
-        cmps = [n for n in ast.walk(inner) if isinstance(n, ast.Call) and dotted(n.func) == "compare"]
-        okn = bool(cmps) and all([norm(x) for x in c.args] == ["float(%s)" % a, "float(%s)" % b] for c in cmps)
-        col.decide("O6", m, cmps[0] if cmps else inner, okn, "numbers are compared by value: compare(float(a), float(b))",
-                   "two numbers must be compared by value, compare(float(a), float(b)), for every pair of numeric types; found %s (e.g. int() truncation makes 1.5 tie with 1)"
-                   % [norm(c) for c in cmps], **({} if cmps else {"construct": "number tier comparison", "function": "struct_cmp"}))
+    cmps = []
+    for p in paths:
+        cd = dict((s_, t) for s_, t, _ in p.conds)
+        if cd.get("_is_number(%s)" % a) and cd.get("_is_number(%s)" % b):
+            for fn, args, node_ in p.calls:
+                if fn == "compare" and node_ not in [c_[1] for c_ in cmps]:
+                    cmps.append((args, node_))
+    if not cmps:
+        raise AnalysisError("struct_cmp: number tier comparison not found")
+    okn = all(args == ["float(%s)" % a, "float(%s)" % b] for args, _ in cmps)
+    col.decide("O6", m, cmps[0][1], okn, "numbers are compared by value: compare(float(a), float(b))",
+               "two numbers must be compared by value, compare(float(a), float(b)), for every pair of numeric types; found %s (e.g. int() truncation makes 1.5 tie with 1)"
+               % [", ".join(args) for args, _ in cmps])
     # compound: arity, then functor, then args
     order = []
     for st in f.node.body:
